@@ -305,3 +305,24 @@ Definition flat_lev (l : Lev unit) : list Z * list Z * list Z :=
 
 Definition flat_step (s : Stp unit) := (flat_sstat (st_stat s) ++ [nz (st_prev s)], map flat_lev (st_levels s)).
 Definition flat_ctrl (c : Ctrl unit) := (map flat_step (c_steps c), map (fun h => Z.of_nat (length (hk_stats h))) (c_hooks c)).
+
+(* ------------------------------------------------------------------------------------------- *)
+(* Part 5: caller-owned description / controller_params objects.  Constructing a controller returns
+   the controller AND leaves the caller's dicts in some state; a later controller may be built from
+   the same objects after the user edited one key. *)
+
+Section Construct.
+  Variable Descr Ctl : Type.
+  Variable build : Descr -> Ctl * Descr.
+  Definition build_after (edit : Descr -> Descr) (d : Descr) : Ctl := fst (build (edit (snd (build d)))).
+End Construct.
+
+(* what Controller.__init__ does with controller_params['hook_class']:
+   hook_classes = [DefaultHooks, CPUTimings] + user list is written back; add_hook instantiates first occurrences only *)
+Fixpoint dedup_acc (seen l : list nat) : list nat :=
+  match l with
+  | [] => []
+  | x :: r => if existsb (Nat.eqb x) seen then dedup_acc seen r else x :: dedup_acc (x :: seen) r
+  end.
+Definition build_hooks (user : list nat) : list nat * list nat :=
+  let written := 0 :: 1 :: user in (dedup_acc [] written, written).
